@@ -341,11 +341,11 @@ package imperatives
 //@   define forall p int :: p >= q1 && tkKind(st, p) == optNotRegex ==> af_notRegex(st, p + 2) == tkVal(st, p + 1)
 //@   define forall p int :: p >= q1 && tkKind(st, p) != optNotRegex && isRouteOpt(tkKind(st, p)) ==> af_notRegex(st, p + 2) == af_notRegex(st, p)
 //@   define forall q int :: ac_cache(st, q, q) == true
-//@   define forall q int :: forall p int :: p >= q && tkKind(st, p) == optCache ==> ac_cache(st, q, p + 2) == parseBoolOf(tkVal(st, p + 1))
-//@   define forall q int :: forall p int :: p >= q && tkKind(st, p) != optCache && (tkKind(st, p) == optCache || tkKind(st, p) == optDropRaw) ==> ac_cache(st, q, p + 2) == ac_cache(st, q, p)
+//@   define forall q int :: forall p int :: p - 2 >= q && tkKind(st, p - 2) == optCache ==> ac_cache(st, q, p) == parseBoolOf(tkVal(st, p - 1))
+//@   define forall q int :: forall p int :: p - 2 >= q && tkKind(st, p - 2) == optDropRaw ==> ac_cache(st, q, p) == ac_cache(st, q, p - 2)
 //@   define forall q int :: ac_dropRaw(st, q, q) == false
-//@   define forall q int :: forall p int :: p >= q && tkKind(st, p) == optDropRaw ==> ac_dropRaw(st, q, p + 2) == parseBoolOf(tkVal(st, p + 1))
-//@   define forall q int :: forall p int :: p >= q && tkKind(st, p) != optDropRaw && (tkKind(st, p) == optCache || tkKind(st, p) == optDropRaw) ==> ac_dropRaw(st, q, p + 2) == ac_dropRaw(st, q, p)
+//@   define forall q int :: forall p int :: p - 2 >= q && tkKind(st, p - 2) == optDropRaw ==> ac_dropRaw(st, q, p) == parseBoolOf(tkVal(st, p - 1))
+//@   define forall q int :: forall p int :: p - 2 >= q && tkKind(st, p - 2) == optCache ==> ac_dropRaw(st, q, p) == ac_dropRaw(st, q, p - 2)
 //@   modifies *
 //@   ensures[nothing_added_on_error; C20] err != nil ==> calls(table.AddAggregator) == L0
 //@   ensures[one_aggregation_added; C20] err == nil ==> (exists a *aggregator.Aggregator :: a != nil && calls(table.AddAggregator) == L0 ++ argsOf(a))
